@@ -22,7 +22,16 @@ RULE = ('Generated level-0 and hierarchical decks whose surfaces carry * '
         'zero set is written has exactly one entry of its kind on a SURF '
         'with that zero set (one per flagged written copy when '
         'de-duplication is skipped); (C) no duplicate entries, count = '
-        'lines; (D) a flagged macrobody makes the conversion fail. '
+        'lines; (D) a flagged macrobody makes the conversion fail (also '
+        'deterministically: every macrobody kind x flag x {plain, TR on the '
+        'card, cell under TRCL}). Decks with universes: (A) with the zero '
+        'set taken in every frame in which the flagged card is used '
+        '(placements of the universe through the FILL tree composed with the '
+        'TRCL of the cell that lists it); (B) without de-duplication, where '
+        'numbering does not depend on values: the written copies of a '
+        'flagged card are found by nudging one parameter of the card and '
+        'comparing SURF lines, and each copy that a volume uses must carry '
+        'exactly one entry of the card\'s kind. '
         'Non-trivial: a flagged surface has a duplicate with a smaller '
         'number and de-duplication is on; distinct = (deck, options).')
 ASSUMPTIONS = [
@@ -35,6 +44,9 @@ ASSUMPTIONS = [
     'f_MCNP on generic points (relative 1e-7)',
     'a flagged but unused surface that duplicates a used unflagged one is '
     'not asserted either way',
+    'a flagged surface of a universe that is placed k times has k written '
+    'copies; "exactly one entry" is read per written copy that bounds a '
+    'volume',
 ]
 
 
@@ -123,10 +135,10 @@ def sample_repr(case, out):
 KIND = {'*': 'REFLECTION', '+': 'COSINUS'}
 
 
-def same_locus(deck_surf, trs, t4surf, Q):
-    P = Q
+def same_locus(deck_surf, trs, t4surf, Q, frame=None):
+    P = Q if frame is None else frame.to_aux(Q)
     if deck_surf.get('tr') is not None:
-        P = md.rigid_of(trs[deck_surf['tr']]['spec']).to_aux(Q)
+        P = md.rigid_of(trs[deck_surf['tr']]['spec']).to_aux(P)
     f, s, _cone = mgeom.surface_fs(deck_surf['kind'], deck_surf['params'], P)
     g, gs = t4eval.surf_value(t4surf, Q)
     good = (np.abs(f) > 1e-3 * s) & (np.abs(g) > 1e-3 * gs)
@@ -135,6 +147,151 @@ def same_locus(deck_surf, trs, t4surf, Q):
     ratio = g[good] / f[good]
     r0 = np.median(ratio)
     return r0 != 0 and bool(np.max(np.abs(ratio - r0)) <= 1e-7 * abs(r0))
+
+
+def surface_frames(deck):
+    """For every surface number: the rigid motions (frame of use -> root
+    frame) under which the surface is used: the placements of the universe
+    of a cell that refers to it, through the FILL hierarchy (fill
+    transformation, else the container's TRCL), composed with the TRCL of
+    the cell whose card lists it (for a reference through #n: the TRCL of
+    cell n, in the frame of the referring cell's universe).  The identity is
+    always included (the card as written).  Lattices are not handled here
+    (C16 decks have none)."""
+    loc = md.Locator(deck)
+    cells = {c['id']: c for c in loc.deck['cells']}
+    by_u = {}
+    for c in loc.deck['cells']:
+        by_u.setdefault(c.get('u') or 0, []).append(c)
+    place = {}
+
+    def visit(u, P, depth):
+        if depth > 8:
+            raise mgeom.ModelError('universe nesting too deep')
+        place.setdefault(u, []).append(P)
+        for c in by_u.get(u, []):
+            f = c.get('fill')
+            if not f:
+                continue
+            if c.get('lat') or f.get('univs') is not None:
+                raise mgeom.ModelError('lattice in a C16 deck')
+            Tf = loc.tr_rigid(f.get('tr'))
+            Tc = loc.cell_trcl(c)
+            T = Tf if Tf is not None else (Tc if Tc is not None
+                                           else mgeom.IDENTITY)
+            visit(f['u'], P.compose_after(T), depth + 1)
+    visit(0, mgeom.IDENTITY, 0)
+    frames = {}
+
+    def walk(expr, P, owner, stack):
+        if expr is None:
+            return
+        if expr[0] in ('s', 'f'):
+            Tc = loc.cell_trcl(owner) or mgeom.IDENTITY
+            frames.setdefault(abs(expr[1]), []).append(P.compose_after(Tc))
+        elif expr[0] == '#':
+            n = cells.get(expr[1])
+            if n is not None and n['id'] not in stack:
+                walk(n['expr'], P, n, stack + (n['id'],))
+        else:
+            for sub in expr[1:]:
+                walk(sub, P, owner, stack)
+    for u, cs in by_u.items():
+        for c in cs:
+            for P in place.get(u, []):
+                walk(c['expr'], P, c, (c['id'],))
+    for s_ in loc.deck['surfaces']:
+        frames.setdefault(s_['id'], []).append(mgeom.IDENTITY)
+    return frames
+
+
+# index of a parameter whose change moves the zero set, per mnemonic
+PERTURB_INDEX = {'p': 3, 'px': 0, 'py': 0, 'pz': 0, 'so': 0, 's': 3, 'sx': 1,
+                 'sy': 1, 'sz': 1, 'c/x': 2, 'c/y': 2, 'c/z': 2, 'cx': 0,
+                 'cy': 0, 'cz': 0, 'k/x': 3, 'k/y': 3, 'k/z': 3, 'kx': 1,
+                 'ky': 1, 'kz': 1, 'sq': 6, 'gq': 9, 'tx': 5, 'ty': 5, 'tz': 5,
+                 'x': 1, 'y': 1, 'z': 1}
+
+
+def derived_surfaces(deck, s, argv, base_t4, style):
+    """Written surfaces that come from surface card ``s``: those whose SURF
+    line changes when one parameter of the card is nudged (only meaningful
+    without de-duplication, where numbering does not depend on values)."""
+    import copy
+    k = s['kind'].lower()
+    idx = PERTURB_INDEX.get(k)
+    if idx is None or (k == 'p' and len(s['params']) != 4):
+        return None
+    d2 = copy.deepcopy(deck)
+    for s2 in d2['surfaces']:
+        if s2['id'] == s['id']:
+            # (duplicated cards may share their parameter list)
+            s2['params'] = list(s2['params'])
+            v = s2['params'][idx]
+            s2['params'][idx] = v + 1e-3 * (1.0 + abs(v))
+    res = conv.convert(mr.render(d2, expr_style=style), argv)
+    if not res.ok:
+        return None
+    t2 = t4read.parse(res.t4_text)
+    if set(t2.surfs) != set(base_t4.surfs):
+        return None
+    out = set()
+    for sid, a in base_t4.surfs.items():
+        b = t2.surfs[sid]
+        if a.type != b.type or a.params != b.params or \
+                getattr(a, 'transform', None) != getattr(b, 'transform', None):
+            out.add(sid)
+    return out
+
+
+def hierarchical_verdict(deck, t4, entries, flagged, trs, Q, text, argv,
+                         labels, case):
+    """Decks with universes.  (A) every entry designates a written surface
+    with the locus of a flagged surface of that kind in one of its frames of
+    use.  (B) without de-duplication: every written surface that derives
+    from a flagged card (found by nudging the card) and is used by a volume
+    carries exactly one entry of the card's kind."""
+    frames = surface_frames(deck)
+    kind_of = {s['id']: KIND[s['bc']] for s in flagged}
+    for kind, sid in entries:
+        ts = t4.surfs.get(sid)
+        okay = ts is not None and ts.params is not None and any(
+            kind_of[s['id']] == kind and same_locus(s, trs, ts, Q, F)
+            for s in flagged for F in frames.get(s['id'], []))
+        if not okay:
+            return violation('bc:entry-without-flagged-surface:universes',
+                             {'entry': [kind, sid], 'entries': entries,
+                              'flagged': [(s['bc'], s['id']) for s in flagged],
+                              'deck': text, 'argv': argv}, labels)
+    n_checked = 0
+    if '--skip-deduplication' in case['argv']:
+        used_t4 = set()
+        for v in t4.volus.values():
+            used_t4.update(v.plus)
+            used_t4.update(v.minus)
+        for s in flagged[:3]:
+            der = derived_surfaces(deck, s, argv, t4, case.get('style'))
+            if der is None:
+                continue
+            # (an auxiliary apex plane of a one-sheet cone moves with the
+            # card but does not have its locus)
+            der = set(sid for sid in der
+                      if t4.surfs[sid].params is not None
+                      and any(same_locus(s, trs, t4.surfs[sid], Q, F)
+                              for F in frames.get(s['id'], [])))
+            for sid in sorted(der & used_t4):
+                n = sum(1 for kind, e in entries
+                        if e == sid and kind == kind_of[s['id']])
+                n_checked += 1
+                if n != 1:
+                    return violation(
+                        'bc:wrong-number-of-entries:universes',
+                        {'flagged_card': [s['bc'], s['id']],
+                         'written_copy': sid, 'found': n, 'entries': entries,
+                         'deck': text, 'argv': argv}, labels)
+    return ok(labels, n_checked >= 2, sig=case_sig([text, argv]),
+              counts={'entries': len(entries), 'flagged': len(flagged),
+                      'written_copies_checked': n_checked})
 
 
 def used_by_converted_cells(deck):
@@ -218,16 +375,8 @@ def check(case):
     level0_only = not any(c.get('u') for c in deck['cells'])
     used = used_by_converted_cells(deck)
     if not level0_only:
-        # flagged surfaces inside (transformed) universes: only the kinds are
-        # checked (their zero sets live in other frames)
-        kinds = set(KIND[s['bc']] for s in flagged)
-        for kind, sid in entries:
-            if kind not in kinds:
-                return violation('bc:kind-without-flag',
-                                 {'entry': [kind, sid], 'deck': text,
-                                  'argv': argv}, labels)
-        return ok(labels, False, sig=case_sig([text, argv]),
-                  counts={'entries': len(entries), 'flagged': len(flagged)})
+        return hierarchical_verdict(deck, t4, entries, flagged, trs, Q, text,
+                                    argv, labels, case)
     if len(set(entries)) != len(entries):
         return violation('bc:duplicate-entries', {'entries': entries,
                                                   'deck': text, 'argv': argv},
